@@ -11,6 +11,10 @@ CONSTANTS
   MaxGen = 12
   Secure = TRUE
   Mutant = "none"
+  Kind = "nsec"
+  Race = FALSE
+  MaxBorn = 0
+  Targets = {}
 INIT Init
 NEXT Next
 CHECK_DEADLOCK FALSE
